@@ -2,6 +2,8 @@
 //! construction* under the documented typing rules (C07), and doubles as an input
 //! family for the totality check (C06).
 
+use std::collections::{HashMap, HashSet};
+
 use super::ast::*;
 use crate::rng::Rng;
 use crate::val::IntTy;
@@ -29,7 +31,7 @@ pub enum Pos {
     Other,
 }
 
-pub const EDIT_KINDS: [&str; 22] = [
+pub const EDIT_KINDS: [&str; 34] = [
     "mismatch-cond",
     "mismatch-arg",
     "mismatch-operand",
@@ -52,10 +54,54 @@ pub const EDIT_KINDS: [&str; 22] = [
     "rem-on-float",
     "question-mark-outside-option-fn",
     "redeclare-in-scope",
+    // A non-exhaustive match obtained by *retargeting* arms instead of deleting them.
+    // In a match without an unguarded `_` arm, take 1..k variants X whose only
+    // unguarded arm is arm A(X), and give each A(X) the pattern of another variant Y
+    // that keeps its own arms (Y is never one of the X). Every X is then left without
+    // an unguarded arm (guarded arms and guarded `_` arms may fail and never cover a
+    // variant), so the match is not exhaustive, although it has as many unguarded
+    // arms as before. The new arm is well typed in that place:
+    // keep-body: X has no payload (its body names no binder; Y's payload gets fresh
+    //            binders), or X and Y have the same payload types (binders kept);
+    // copy-arm:  a copy of an arm of Y (guard dropped), whose body was typed in the
+    //            same enclosing scope with Y's binders; the binders may be renamed
+    //            consistently to fresh names.
+    // Control program: the new arm is added in front of A(X) instead of replacing it
+    // (complete match with a repeated arm: accepted, with a warning).
+    "match-retarget-keep-body",
+    "match-retarget-copy-arm",
+    // A name used in a *sibling* scope of the one that declares it. The name is
+    // declared by a `let` directly in the source block (or by the pattern of the source
+    // arm / the variable of the source `for`), and nothing else in the function or at
+    // top level declares that name, so no binding of it can be visible at the use,
+    // which is a plain read of the name (`let zz_use = n;`, the same with the type
+    // annotated, `n;`, or in a condition `n`, `n == n`, `{ let zz_use = n; true }`)
+    // put at a reachable place (before the first statement that may return).
+    // Control program: the same read right after the declaration, plus a marker
+    // statement `let zz_pos = true;` where the mutant has the read.
+    //   then-to-else / else-to-then: between the two blocks of one if-else
+    //   then-to-elseif-cond / -body: into the condition / a block of an `else if`
+    //       link of the chain that follows (an existing chain, or `else {E}` is first
+    //       rewritten to `else if c {E} .. else {E}`, in mutant and control alike)
+    //   arm-to-arm-guard / -body: into the guard (an existing one, or the guard of a
+    //       guarded copy of the arm put in front of it) / the body of another arm
+    //   then- / loop- / block- / arm-to-after: from the then block, `while`/`for` body
+    //       (or the `for` variable), inner block, arm of statement i of a block to a
+    //       later place in that block
+    "scope-then-to-else",
+    "scope-else-to-then",
+    "scope-then-to-elseif-cond",
+    "scope-then-to-elseif-body",
+    "scope-arm-to-arm-guard",
+    "scope-arm-to-arm-body",
+    "scope-then-to-after",
+    "scope-loop-to-after",
+    "scope-block-to-after",
+    "scope-arm-to-after",
 ];
 
 /// Item-level edits (applied on the program, not on an expression site)
-pub const ITEM_EDITS: [&str; 9] = [
+pub const ITEM_EDITS: [&str; 10] = [
     "accept-in-fn",
     "return-in-const",
     "assign-to-const",
@@ -65,6 +111,9 @@ pub const ITEM_EDITS: [&str; 9] = [
     "recursive-record-through-option",
     "const-depends-on-itself",
     "const-cycle-through-function",
+    // generated programs have no local of type Verdict: a synthesised function
+    // matches on a Verdict parameter, and one of its two arms is retargeted
+    "match-retarget-verdict",
 ];
 
 fn bool_lit() -> Expr {
@@ -91,6 +140,366 @@ struct Walker<'a> {
     done: bool,
     fns: Vec<(usize, Ty)>, // (param count, ret) per function
     rng_word: u64,
+    /// type declarations of the program (for the payload types of variants)
+    tp: Program,
+    /// how often each name is declared (parameter, let, pattern or loop binder) in
+    /// the function that is being walked
+    decls: HashMap<String, u32>,
+    /// names of constants and functions
+    globals: HashSet<String>,
+    /// build the *control* program instead of the mutant: the same edit, but done so
+    /// that the typing rule is respected (the use stays inside the scope of the
+    /// declaration; the retargeted arm is added next to the arm it would replace)
+    control: bool,
+    /// details of the applied edit (coverage tags)
+    tags: Vec<String>,
+}
+
+/// splitmix64 over the edit word: the choices inside one edit
+struct Mix(u64);
+
+impl Mix {
+    fn next(&mut self) -> u64 {
+        self.0 = self.0.wrapping_add(0x9e37_79b9_7f4a_7c15);
+        let mut z = self.0;
+        z = (z ^ (z >> 30)).wrapping_mul(0xbf58_476d_1ce4_e5b9);
+        z = (z ^ (z >> 27)).wrapping_mul(0x94d0_49bb_1331_11eb);
+        z ^ (z >> 31)
+    }
+    fn below(&mut self, n: usize) -> usize {
+        if n == 0 { 0 } else { (self.next() % n as u64) as usize }
+    }
+}
+
+/// Where a name is declared inside its scope.
+#[derive(Clone, Debug)]
+enum Decl {
+    /// `let` statement number i of the block
+    Let(usize),
+    /// binder of the pattern of a match arm
+    Binder,
+    /// loop variable of a `for`
+    ForVar,
+}
+
+#[derive(Clone, Debug)]
+struct Cand {
+    name: String,
+    ty: Ty,
+    decl: Decl,
+}
+
+impl Cand {
+    fn var(&self) -> Expr {
+        Expr::var(&self.name, self.ty.clone())
+    }
+    fn src_tag(&self) -> &'static str {
+        match self.decl {
+            Decl::Let(_) => "let",
+            Decl::Binder => "arm-binder",
+            Decl::ForVar => "for-binder",
+        }
+    }
+    /// a statement that reads the name
+    fn use_stmt(&self, m: &mut Mix) -> (Stmt, &'static str) {
+        match m.below(3) {
+            0 => (Stmt::Let("zz_use".into(), None, self.var()), "let"),
+            1 => (Stmt::Let("zz_use".into(), Some(self.ty.clone()), self.var()), "let-annotated"),
+            _ => (Stmt::Expr(self.var()), "expr-stmt"),
+        }
+    }
+    /// a boolean expression that reads the name
+    fn use_cond(&self, m: &mut Mix) -> (Expr, &'static str) {
+        let eq = || Expr::new(Ty::Bool, EK::Bin(BinOp::Eq, Box::new(self.var()), Box::new(self.var())));
+        let blk = || {
+            let b = Block { stmts: vec![Stmt::Let("zz_use".into(), None, self.var())], tail: Some(Box::new(Expr::boolean(true))) };
+            Expr::new(Ty::Bool, EK::Block(b))
+        };
+        match &self.ty {
+            Ty::Bool => match m.below(3) {
+                0 => (self.var(), "bool"),
+                1 => (eq(), "eq"),
+                _ => (blk(), "block"),
+            },
+            Ty::Int(_) | Ty::F32 | Ty::F64 | Ty::Char | Ty::Str => {
+                if m.below(2) == 0 {
+                    (eq(), "eq")
+                } else {
+                    (blk(), "block")
+                }
+            }
+            _ => (blk(), "block"),
+        }
+    }
+}
+
+fn paren(e: Expr) -> Expr {
+    Expr::new(e.ty.clone(), EK::Paren(Box::new(e)))
+}
+
+/// `(cond) && (use)` or `(use) && (cond)`
+fn conjoin(cond: Expr, u: Expr, m: &mut Mix) -> Expr {
+    let (a, b) = if m.below(2) == 0 { (paren(cond), paren(u)) } else { (paren(u), paren(cond)) };
+    Expr::new(Ty::Bool, EK::Bin(BinOp::And, Box::new(a), Box::new(b)))
+}
+
+/// Read-only traversal: `f` sees every expression, `d` every declared local name.
+fn visit_expr(e: &Expr, f: &mut dyn FnMut(&Expr), d: &mut dyn FnMut(&str)) {
+    f(e);
+    match &e.k {
+        EK::Lit(_) | EK::Path(..) => {}
+        EK::Field(a, _) | EK::Un(_, a) | EK::Try(a) | EK::Paren(a) => visit_expr(a, f, d),
+        EK::Bin(_, a, b) => {
+            visit_expr(a, f, d);
+            visit_expr(b, f, d);
+        }
+        EK::If(c, t, el) => {
+            visit_expr(c, f, d);
+            visit_block(t, f, d);
+            if let Some(el) = el {
+                visit_block(el, f, d);
+            }
+        }
+        EK::Match(s, arms) => {
+            visit_expr(s, f, d);
+            for a in arms {
+                for b in &a.binds {
+                    d(b);
+                }
+                if let Some(g) = &a.guard {
+                    visit_expr(g, f, d);
+                }
+                visit_block(&a.body, f, d);
+            }
+        }
+        EK::Call(_, args) | EK::Host(_, args) | EK::Ctor(_, args) | EK::ListLit(args) => {
+            for a in args {
+                visit_expr(a, f, d);
+            }
+        }
+        EK::Method(r, _, args) => {
+            visit_expr(r, f, d);
+            for a in args {
+                visit_expr(a, f, d);
+            }
+        }
+        EK::RecLit(_, fs) => {
+            for (_, a) in fs {
+                visit_expr(a, f, d);
+            }
+        }
+        EK::FStr(ps) => {
+            for p in ps {
+                if let FPart::Expr(a) = p {
+                    visit_expr(a, f, d);
+                }
+            }
+        }
+        EK::Block(b) => visit_block(b, f, d),
+        EK::Ret(_, v) => {
+            if let Some(v) = v {
+                visit_expr(v, f, d);
+            }
+        }
+        EK::Assign(_, v) | EK::CompAssign(_, _, v) => visit_expr(v, f, d),
+        EK::While(c, b) => {
+            visit_expr(c, f, d);
+            visit_block(b, f, d);
+        }
+        EK::For(v, it, b) => {
+            d(v);
+            visit_expr(it, f, d);
+            visit_block(b, f, d);
+        }
+    }
+}
+
+fn visit_block(b: &Block, f: &mut dyn FnMut(&Expr), d: &mut dyn FnMut(&str)) {
+    for s in &b.stmts {
+        match s {
+            Stmt::Let(n, _, e) => {
+                d(n);
+                visit_expr(e, f, d);
+            }
+            Stmt::Expr(e) => visit_expr(e, f, d),
+        }
+    }
+    if let Some(t) = &b.tail {
+        visit_expr(t, f, d);
+    }
+}
+
+/// May control leave this statement early? (conservative: any return / accept /
+/// reject anywhere inside). Statements after such a one may be unreachable, and
+/// an unreachable statement is an error of its own.
+fn stmt_may_diverge(s: &Stmt) -> bool {
+    let mut found = false;
+    let e = match s {
+        Stmt::Let(_, _, e) | Stmt::Expr(e) => e,
+    };
+    visit_expr(e, &mut |x| found |= matches!(x.k, EK::Ret(..)), &mut |_| {});
+    found
+}
+
+/// Largest position p >= from such that no statement in from..p may diverge.
+fn reach_limit(b: &Block, from: usize) -> usize {
+    (from..b.stmts.len()).find(|&i| stmt_may_diverge(&b.stmts[i])).unwrap_or(b.stmts.len())
+}
+
+/// Insert a statement into `b` at a reachable position >= from. Returns the position.
+fn insert_reachable(b: &mut Block, from: usize, s: Stmt, m: &mut Mix) -> usize {
+    let hi = reach_limit(b, from);
+    // the two ends are the interesting places
+    let pos = match m.below(4) {
+        0 => from,
+        1 => hi,
+        _ => from + m.below(hi - from + 1),
+    };
+    b.stmts.insert(pos, s);
+    pos
+}
+
+fn pos_marker() -> Stmt {
+    Stmt::Let("zz_pos".into(), None, Expr::boolean(true))
+}
+
+/// In the control program: read the name right where it is in scope.
+fn control_use(src: &mut Block, c: &Cand, s: Stmt) {
+    let at = match c.decl {
+        Decl::Let(i) => i + 1,
+        Decl::Binder | Decl::ForVar => 0,
+    };
+    src.stmts.insert(at, s);
+}
+
+/// Is this else block exactly one `if` (printed as `else if`)?
+fn is_link(b: &Block) -> bool {
+    b.stmts.is_empty() && b.tail.as_ref().is_some_and(|t| matches!(t.k, EK::If(..)))
+}
+
+/// Number of `else if` links of the chain that starts with this else block
+fn chain_len(b: &Block) -> usize {
+    if !is_link(b) {
+        return 0;
+    }
+    match &b.tail.as_ref().unwrap().k {
+        EK::If(_, _, Some(el)) => 1 + chain_len(el),
+        _ => 1,
+    }
+}
+
+/// The j-th `if` of the chain that starts with else block `b`
+fn link_mut(b: &mut Block, j: usize) -> &mut Expr {
+    let t = b.tail.as_mut().unwrap();
+    if j == 0 {
+        return t;
+    }
+    match &mut t.k {
+        EK::If(_, _, Some(el)) => link_mut(el, j - 1),
+        _ => unreachable!("chain_len"),
+    }
+}
+
+/// Rename identifier `from` to `to` everywhere in the arm (alpha-renaming of a
+/// binder: `to` is fresh, and `from` is bound by the pattern for the whole arm).
+fn rename_block(b: &mut Block, from: &str, to: &str) {
+    for s in b.stmts.iter_mut() {
+        match s {
+            Stmt::Let(n, _, e) => {
+                if n == from {
+                    *n = to.to_string();
+                }
+                rename_expr(e, from, to);
+            }
+            Stmt::Expr(e) => rename_expr(e, from, to),
+        }
+    }
+    if let Some(t) = b.tail.as_mut() {
+        rename_expr(t, from, to);
+    }
+}
+
+fn rename_expr(e: &mut Expr, from: &str, to: &str) {
+    match &mut e.k {
+        EK::Lit(_) => {}
+        EK::Path(r, _) => {
+            if r == from {
+                *r = to.to_string();
+            }
+        }
+        EK::Field(a, _) | EK::Un(_, a) | EK::Try(a) | EK::Paren(a) => rename_expr(a, from, to),
+        EK::Bin(_, a, b) => {
+            rename_expr(a, from, to);
+            rename_expr(b, from, to);
+        }
+        EK::If(c, t, el) => {
+            rename_expr(c, from, to);
+            rename_block(t, from, to);
+            if let Some(el) = el {
+                rename_block(el, from, to);
+            }
+        }
+        EK::Match(s, arms) => {
+            rename_expr(s, from, to);
+            for a in arms.iter_mut() {
+                for b in a.binds.iter_mut() {
+                    if b == from {
+                        *b = to.to_string();
+                    }
+                }
+                if let Some(g) = a.guard.as_mut() {
+                    rename_expr(g, from, to);
+                }
+                rename_block(&mut a.body, from, to);
+            }
+        }
+        EK::Call(_, args) | EK::Host(_, args) | EK::Ctor(_, args) | EK::ListLit(args) => {
+            for a in args.iter_mut() {
+                rename_expr(a, from, to);
+            }
+        }
+        EK::Method(r, _, args) => {
+            rename_expr(r, from, to);
+            for a in args.iter_mut() {
+                rename_expr(a, from, to);
+            }
+        }
+        EK::RecLit(_, fs) => {
+            for (_, a) in fs.iter_mut() {
+                rename_expr(a, from, to);
+            }
+        }
+        EK::FStr(ps) => {
+            for p in ps.iter_mut() {
+                if let FPart::Expr(a) = p {
+                    rename_expr(a, from, to);
+                }
+            }
+        }
+        EK::Block(b) => rename_block(b, from, to),
+        EK::Ret(_, v) => {
+            if let Some(v) = v {
+                rename_expr(v, from, to);
+            }
+        }
+        EK::Assign(p, v) | EK::CompAssign(p, _, v) => {
+            if p.root == from {
+                p.root = to.to_string();
+            }
+            rename_expr(v, from, to);
+        }
+        EK::While(c, b) => {
+            rename_expr(c, from, to);
+            rename_block(b, from, to);
+        }
+        EK::For(v, it, b) => {
+            if v == from {
+                *v = to.to_string();
+            }
+            rename_expr(it, from, to);
+            rename_block(b, from, to);
+        }
+    }
 }
 
 impl Walker<'_> {
@@ -105,7 +514,119 @@ impl Walker<'_> {
         }
     }
 
+    /// May `name` serve as the out-of-scope name? Only if nothing else in the
+    /// function (or at top level) declares it: then no outer binding of the name can
+    /// be visible where the use is put, whatever is shadowed where.
+    fn uniq(&self, name: &str, ty: &Ty) -> bool {
+        *ty != Ty::Unit && self.decls.get(name) == Some(&1) && !self.globals.contains(name)
+    }
+
+    /// names declared by a `let` directly in this block
+    fn let_cands(&self, b: &Block) -> Vec<Cand> {
+        let mut v = Vec::new();
+        for (i, s) in b.stmts.iter().enumerate() {
+            if let Stmt::Let(n, t, e) = s {
+                let ty = t.clone().unwrap_or_else(|| e.ty.clone());
+                if self.uniq(n, &ty) {
+                    v.push(Cand { name: n.clone(), ty, decl: Decl::Let(i) });
+                }
+            }
+        }
+        v
+    }
+
+    /// names declared by the pattern of the arm or by a `let` directly in its body
+    fn arm_cands(&self, a: &Arm, scrut: &Ty) -> Vec<Cand> {
+        let mut v = Vec::new();
+        if let Some(vi) = a.variant
+            && let Some(vs) = self.tp.enum_variants(scrut)
+            && let Some((_, fts)) = vs.get(vi)
+            && fts.len() == a.binds.len()
+        {
+            for (b, t) in a.binds.iter().zip(fts.iter()) {
+                if self.uniq(b, t) {
+                    v.push(Cand { name: b.clone(), ty: t.clone(), decl: Decl::Binder });
+                }
+            }
+        }
+        v.extend(self.let_cands(&a.body));
+        v
+    }
+
+    /// Sources of the "declared inside statement i, used after it" kinds: the names
+    /// that the (then block | loop body | inner block | match arms) of `e` declares.
+    fn after_cands(&self, e: &Expr) -> Vec<(usize, Cand)> {
+        match (&e.k, self.kind) {
+            (EK::If(_, t, _), "scope-then-to-after") => self.let_cands(t).into_iter().map(|c| (0, c)).collect(),
+            (EK::While(_, b), "scope-loop-to-after") => self.let_cands(b).into_iter().map(|c| (0, c)).collect(),
+            (EK::For(v, it, b), "scope-loop-to-after") => {
+                let mut cs = Vec::new();
+                if let Ty::List(t) = &it.ty
+                    && self.uniq(v, t)
+                {
+                    cs.push((0, Cand { name: v.clone(), ty: (**t).clone(), decl: Decl::ForVar }));
+                }
+                cs.extend(self.let_cands(b).into_iter().map(|c| (0, c)));
+                cs
+            }
+            (EK::Block(b), "scope-block-to-after") => self.let_cands(b).into_iter().map(|c| (0, c)).collect(),
+            (EK::Match(s, arms), "scope-arm-to-after") => {
+                let mut cs = Vec::new();
+                for (i, a) in arms.iter().enumerate() {
+                    cs.extend(self.arm_cands(a, &s.ty).into_iter().map(|c| (i, c)));
+                }
+                cs
+            }
+            _ => Vec::new(),
+        }
+    }
+
+    fn scope_tags(&mut self, c: &Cand, how: &str) {
+        self.tags.push(format!("scope-src:{}", c.src_tag()));
+        self.tags.push(format!("scope-use:{how}"));
+        self.tags.push(format!("{}:src:{}", self.kind, c.src_tag()));
+    }
+
     fn block(&mut self, b: &mut Block, ret: Option<&Ty>) {
+        if matches!(self.kind, "scope-then-to-after" | "scope-loop-to-after" | "scope-block-to-after" | "scope-arm-to-after") {
+            for i in 0..b.stmts.len() {
+                if self.done {
+                    return;
+                }
+                // everything up to and including statement i must fall through
+                if stmt_may_diverge(&b.stmts[i]) {
+                    break;
+                }
+                let cands = match &b.stmts[i] {
+                    Stmt::Let(_, _, e) | Stmt::Expr(e) => self.after_cands(e),
+                };
+                if cands.is_empty() || !self.hit() {
+                    continue;
+                }
+                let mut m = Mix(self.rng_word);
+                let (arm, c) = cands[m.below(cands.len())].clone();
+                let (u, how) = c.use_stmt(&mut m);
+                if self.control {
+                    let e = match &mut b.stmts[i] {
+                        Stmt::Let(_, _, e) | Stmt::Expr(e) => e,
+                    };
+                    let src = match &mut e.k {
+                        EK::If(_, t, _) => t,
+                        EK::While(_, body) | EK::For(_, _, body) => body,
+                        EK::Block(inner) => inner,
+                        EK::Match(_, arms) => &mut arms[arm].body,
+                        _ => unreachable!("after_cands"),
+                    };
+                    control_use(src, &c, u);
+                    insert_reachable(b, i + 1, pos_marker(), &mut m);
+                } else {
+                    let at = insert_reachable(b, i + 1, u, &mut m);
+                    self.scope_tags(&c, how);
+                    self.tags.push(format!("scope-after:{}", if at == i + 1 { "next-statement" } else { "later-statement" }));
+                }
+                return;
+            }
+        }
         if self.kind == "redeclare-in-scope" {
             // duplicate a let in the same scope
             let lets: Vec<usize> = b.stmts.iter().enumerate().filter(|(_, s)| matches!(s, Stmt::Let(..))).map(|(i, _)| i).collect();
@@ -164,6 +685,7 @@ impl Walker<'_> {
             return;
         }
         // --- edits keyed on the node itself ---
+        let ety = e.ty.clone();
         match (&mut e.k, self.kind) {
             (EK::Call(f, args), "arg-count-extra") => {
                 let _ = f;
@@ -218,6 +740,245 @@ impl Walker<'_> {
                         arms.remove(i);
                         return;
                     }
+                }
+            }
+            (EK::Match(scrut, arms), "match-retarget-keep-body" | "match-retarget-copy-arm") => {
+                // Never with an unguarded `_` arm (it covers everything). Guarded arms
+                // (of a variant or of `_`) never count towards exhaustiveness.
+                let has_default = arms.iter().any(|a| a.variant.is_none() && a.guard.is_none());
+                let variants = self.tp.enum_variants(&scrut.ty);
+                if !has_default && let Some(vs) = variants {
+                    let copy = self.kind == "match-retarget-copy-arm";
+                    // arms that are the only unguarded arm of their variant
+                    let sole: Vec<usize> = (0..arms.len())
+                        .filter(|&i| {
+                            arms[i].variant.is_some()
+                                && arms[i].guard.is_none()
+                                && arms.iter().enumerate().all(|(j, b)| j == i || b.variant != arms[i].variant || b.guard.is_some())
+                        })
+                        .collect();
+                    // may the arm of variant x keep its body under the pattern of variant y?
+                    let compatible = |x: usize, y: usize| x != y && (vs[x].1.is_empty() || vs[x].1 == vs[y].1);
+                    let possible = |x: usize, y: usize| if copy { x != y && arms.iter().any(|a| a.variant == Some(y)) } else { compatible(x, y) };
+                    let applicable = sole.iter().any(|&i| (0..vs.len()).any(|y| possible(arms[i].variant.unwrap(), y)));
+                    if applicable && self.hit() {
+                        let mut m = Mix(self.rng_word);
+                        let kmax = sole.len().min(vs.len() - 1);
+                        let k = if m.below(2) == 0 { 1 } else { 1 + m.below(kmax) };
+                        // random order over the candidate arms
+                        let mut order = sole.clone();
+                        for i in (1..order.len()).rev() {
+                            order.swap(i, m.below(i + 1));
+                        }
+                        let mut retargeted: Vec<usize> = Vec::new(); // variants that lose their arm
+                        let mut targets: Vec<usize> = Vec::new(); // variants that get one more arm
+                        let mut plan: Vec<(usize, usize)> = Vec::new(); // (arm, new variant)
+                        for &ai in &order {
+                            if plan.len() >= k {
+                                break;
+                            }
+                            let x = arms[ai].variant.unwrap();
+                            if targets.contains(&x) {
+                                continue;
+                            }
+                            let ys: Vec<usize> = (0..vs.len()).filter(|&y| !retargeted.contains(&y) && possible(x, y)).collect();
+                            if ys.is_empty() {
+                                continue;
+                            }
+                            let y = ys[m.below(ys.len())];
+                            retargeted.push(x);
+                            targets.push(y);
+                            plan.push((ai, y));
+                        }
+                        let guarded_variant = arms.iter().any(|a| a.variant.is_some() && a.guard.is_some());
+                        let guarded_default = arms.iter().any(|a| a.variant.is_none());
+                        let mut new_arms: Vec<(usize, Arm)> = Vec::new();
+                        for (n, &(ai, y)) in plan.iter().enumerate() {
+                            let x = arms[ai].variant.unwrap();
+                            let (arm, mode) = if copy {
+                                let from: Vec<usize> = (0..arms.len()).filter(|&j| arms[j].variant == Some(y)).collect();
+                                let mut a = arms[from[m.below(from.len())]].clone();
+                                let had_guard = a.guard.take().is_some();
+                                let rename = m.below(2) == 0 && !a.binds.is_empty();
+                                if rename {
+                                    for (bi, b) in a.binds.clone().iter().enumerate() {
+                                        let to = format!("zz_r{n}_{bi}");
+                                        rename_block(&mut a.body, b, &to);
+                                        a.binds[bi] = to;
+                                    }
+                                }
+                                (a, if rename { "copy-renamed-binders" } else if had_guard { "copy-of-guarded-arm" } else { "copy" })
+                            } else {
+                                let mut a = arms[ai].clone();
+                                a.variant = Some(y);
+                                a.variant_name = vs[y].0.clone();
+                                let same = !vs[x].1.is_empty();
+                                if !same {
+                                    a.binds = (0..vs[y].1.len()).map(|bi| format!("zz_w{n}_{bi}")).collect();
+                                }
+                                (a, if same { "same-payload" } else if vs[y].1.is_empty() { "payloadless-to-payloadless" } else { "payloadless-to-payload" })
+                            };
+                            if !self.control {
+                                self.tags.push(format!("retarget:mode:{mode}"));
+                            }
+                            new_arms.push((ai, arm));
+                        }
+                        if !self.control {
+                            self.tags.push(format!("retarget:arms:{}", plan.len()));
+                            self.tags.push(format!(
+                                "retarget:on:{}",
+                                match &scrut.ty {
+                                    Ty::Opt(_) => "option",
+                                    Ty::Verdict(..) => "verdict",
+                                    _ => "enum",
+                                }
+                            ));
+                            self.tags.push(format!("retarget:guarded-variant-arms:{}", if guarded_variant { "present" } else { "absent" }));
+                            self.tags.push(format!("retarget:guarded-default-arms:{}", if guarded_default { "present" } else { "absent" }));
+                            self.tags.push(format!("retarget:variants:{}", vs.len().min(5)));
+                        }
+                        // mutant: the new arm replaces the arm; control: it is added in front of it
+                        new_arms.sort_by(|a, b| b.0.cmp(&a.0));
+                        for (ai, arm) in new_arms {
+                            if self.control {
+                                arms.insert(ai, arm);
+                            } else {
+                                arms[ai] = arm;
+                            }
+                        }
+                        return;
+                    }
+                }
+            }
+            (EK::If(_, t, Some(el)), "scope-then-to-else" | "scope-else-to-then") => {
+                // an else block that is exactly one `if` belongs to the else-if kinds
+                let fwd = self.kind == "scope-then-to-else";
+                let cands = if fwd { self.let_cands(t) } else { self.let_cands(el) };
+                if !cands.is_empty() && !(fwd && is_link(el)) && self.hit() {
+                    let mut m = Mix(self.rng_word);
+                    let c = cands[m.below(cands.len())].clone();
+                    let (u, how) = c.use_stmt(&mut m);
+                    let (src, dst) = if fwd { (t, el) } else { (el, t) };
+                    if self.control {
+                        // the position marker first: it must not shift the declaration
+                        insert_reachable(dst, 0, pos_marker(), &mut m);
+                        control_use(src, &c, u);
+                    } else {
+                        insert_reachable(dst, 0, u, &mut m);
+                        self.scope_tags(&c, how);
+                    }
+                    return;
+                }
+            }
+            (EK::If(cond0, t, Some(el)), "scope-then-to-elseif-cond" | "scope-then-to-elseif-body") => {
+                let cands = self.let_cands(t);
+                if !cands.is_empty() && self.hit() {
+                    let mut m = Mix(self.rng_word);
+                    let c = cands[m.below(cands.len())].clone();
+                    if !is_link(el) {
+                        // no else-if chain here: make one. `if c {T} else {E}` becomes
+                        // `if c {T} else if c1 {E} ... else {E}`, which is as well typed
+                        // as before (the control program contains the same chain)
+                        let n = 1 + m.below(3);
+                        let orig = el.clone();
+                        let mut cur = orig.clone();
+                        for _ in 0..n {
+                            let c1 = if m.below(2) == 0 { (**cond0).clone() } else { Expr::boolean(m.below(2) == 0) };
+                            let ife = Expr::new(ety.clone(), EK::If(Box::new(c1), orig.clone(), Some(cur)));
+                            cur = Block { stmts: vec![], tail: Some(Box::new(ife)) };
+                        }
+                        *el = cur;
+                        if !self.control {
+                            self.tags.push(format!("scope-elseif:chain:synthesised:{n}"));
+                        }
+                    } else if !self.control {
+                        self.tags.push(format!("scope-elseif:chain:generated:{}", chain_len(el).min(3)));
+                    }
+                    let links = chain_len(el);
+                    let j = m.below(links);
+                    if self.kind == "scope-then-to-elseif-cond" {
+                        let (u, how) = c.use_cond(&mut m);
+                        if self.control {
+                            control_use(t, &c, Stmt::Let("zz_ctl".into(), None, u));
+                        } else {
+                            let EK::If(cond, _, _) = &mut link_mut(el, j).k else { unreachable!("link") };
+                            let old = std::mem::replace(&mut **cond, Expr::boolean(true));
+                            **cond = conjoin(old, u, &mut m);
+                            self.scope_tags(&c, how);
+                            self.tags.push(format!("scope-elseif:link{}", j.min(3)));
+                        }
+                    } else {
+                        let (u, how) = c.use_stmt(&mut m);
+                        let EK::If(_, lt, lel) = &mut link_mut(el, j).k else { unreachable!("link") };
+                        // the then block of the link, or the final else of the chain
+                        let (dst, which) = match lel {
+                            Some(e) if !is_link(e) && m.below(2) == 0 => (e, "final-else"),
+                            _ => (lt, "then"),
+                        };
+                        if self.control {
+                            insert_reachable(dst, 0, pos_marker(), &mut m);
+                            control_use(t, &c, u);
+                        } else {
+                            insert_reachable(dst, 0, u, &mut m);
+                            self.scope_tags(&c, how);
+                            self.tags.push(format!("scope-elseif:link{}:{which}", j.min(3)));
+                        }
+                    }
+                    return;
+                }
+            }
+            (EK::Match(scrut, arms), "scope-arm-to-arm-guard" | "scope-arm-to-arm-body") if arms.len() >= 2 => {
+                let srcs: Vec<usize> = (0..arms.len()).filter(|&i| !self.arm_cands(&arms[i], &scrut.ty).is_empty()).collect();
+                if !srcs.is_empty() && self.hit() {
+                    let mut m = Mix(self.rng_word);
+                    let a = srcs[m.below(srcs.len())];
+                    let cands = self.arm_cands(&arms[a], &scrut.ty);
+                    let c = cands[m.below(cands.len())].clone();
+                    let mut b = m.below(arms.len() - 1);
+                    if b >= a {
+                        b += 1;
+                    }
+                    let dir = if b < a { "earlier-arm" } else { "later-arm" };
+                    if self.kind == "scope-arm-to-arm-body" {
+                        let (u, how) = c.use_stmt(&mut m);
+                        if self.control {
+                            insert_reachable(&mut arms[b].body, 0, pos_marker(), &mut m);
+                            control_use(&mut arms[a].body, &c, u);
+                        } else {
+                            insert_reachable(&mut arms[b].body, 0, u, &mut m);
+                            self.scope_tags(&c, how);
+                            self.tags.push(format!("scope-arm:{dir}"));
+                        }
+                    } else {
+                        let (u, how) = c.use_cond(&mut m);
+                        let existing = arms[b].guard.is_some();
+                        if self.control {
+                            control_use(&mut arms[a].body, &c, Stmt::Let("zz_ctl".into(), None, u));
+                            if !existing {
+                                let mut extra = arms[b].clone();
+                                extra.guard = Some(Expr::boolean(true));
+                                arms.insert(b, extra);
+                            }
+                        } else {
+                            if existing {
+                                let old = arms[b].guard.take().unwrap();
+                                arms[b].guard = Some(conjoin(old, u, &mut m));
+                            } else {
+                                // a guarded copy of the arm in front of it: the arm itself
+                                // stays, so the match is as exhaustive as before
+                                let mut extra = arms[b].clone();
+                                extra.guard = Some(u);
+                                arms.insert(b, extra);
+                            }
+                            self.scope_tags(&c, how);
+                            self.tags.push(format!("scope-arm:{dir}"));
+                            self.tags.push(format!("scope-arm:guard:{}", if existing { "existing" } else { "added-guarded-copy" }));
+                            if arms[b].variant.is_none() {
+                                self.tags.push("scope-arm:guard:of-default".into());
+                            }
+                        }
+                    }
+                    return;
                 }
             }
             (EK::Match(_, arms), "match-arm-after-default") => {
@@ -351,6 +1112,14 @@ impl Walker<'_> {
                 continue;
             }
             let ret = f.ret.clone();
+            self.decls.clear();
+            for (n, _) in &f.params {
+                *self.decls.entry(n.clone()).or_insert(0) += 1;
+            }
+            {
+                let decls = &mut self.decls;
+                visit_block(&f.body, &mut |_| {}, &mut |n| *decls.entry(n.to_string()).or_insert(0) += 1);
+            }
             // statements
             let mut body = std::mem::take(&mut f.body);
             let tail = body.tail.take();
@@ -366,11 +1135,67 @@ impl Walker<'_> {
     }
 }
 
+fn walker<'a>(prog: &Program, kind: &'a str, target: Option<usize>, word: u64, control: bool) -> Walker<'a> {
+    let mut globals: HashSet<String> = prog.consts.iter().map(|c| c.name.clone()).collect();
+    globals.extend(prog.fns.iter().map(|f| f.name.clone()));
+    Walker {
+        target,
+        n: 0,
+        kind,
+        done: false,
+        fns: vec![],
+        rng_word: word,
+        tp: Program { types: prog.types.clone(), ..Default::default() },
+        decls: HashMap::new(),
+        globals,
+        control,
+        tags: Vec::new(),
+    }
+}
+
 fn count_sites(prog: &Program, kind: &str) -> usize {
     let mut p = prog.clone();
-    let mut w = Walker { target: None, n: 0, kind, done: false, fns: vec![], rng_word: 0 };
+    let mut w = walker(prog, kind, None, 0, false);
     w.program(&mut p);
     w.n
+}
+
+/// A mutant with the details of the edit and, for the edit kinds that have one, the
+/// *control*: the program with the same material added where the typing rule allows
+/// it (it must compile; if it does not, nothing can be concluded from the mutant).
+pub struct Mutant {
+    pub prog: Program,
+    pub tags: Vec<String>,
+    pub control: Option<Program>,
+}
+
+pub fn has_control(kind: &str) -> bool {
+    kind.starts_with("scope-") || kind.starts_with("match-retarget-")
+}
+
+pub fn apply_full(prog: &Program, kind: &str, site: usize, word: u64) -> Option<Mutant> {
+    if ITEM_EDITS.contains(&kind) {
+        let mut tags = Vec::new();
+        let p = item_edit_full(prog, kind, word, false, &mut tags)?;
+        let control = if has_control(kind) { item_edit_full(prog, kind, word, true, &mut Vec::new()) } else { None };
+        return Some(Mutant { prog: p, tags, control });
+    }
+    let mut p = prog.clone();
+    let mut w = walker(prog, kind, Some(site), word, false);
+    w.program(&mut p);
+    if !w.done {
+        return None;
+    }
+    let tags = std::mem::take(&mut w.tags);
+    let control = if has_control(kind) {
+        let mut c = prog.clone();
+        let mut w = walker(prog, kind, Some(site), word, true);
+        w.program(&mut c);
+        if w.done { Some(c) } else { None }
+    } else {
+        None
+    };
+    Some(Mutant { prog: p, tags, control })
 }
 
 /// Number of distinct sites at which `kind` can be applied to `prog`.
@@ -384,12 +1209,90 @@ pub fn apply(prog: &Program, kind: &str, site: usize, word: u64) -> Option<Progr
         return item_edit(prog, kind, word);
     }
     let mut p = prog.clone();
-    let mut w = Walker { target: Some(site), n: 0, kind, done: false, fns: vec![], rng_word: word };
+    let mut w = walker(prog, kind, Some(site), word, false);
     w.program(&mut p);
     if w.done { Some(p) } else { None }
 }
 
 fn item_edit(prog: &Program, kind: &str, word: u64) -> Option<Program> {
+    item_edit_full(prog, kind, word, false, &mut Vec::new())
+}
+
+/// `fn zz_verdict(v: Verdict[A, R], d: A) -> A { match v { Accept(za) => .., Reject(zr) => .. } }`
+/// with one arm retargeted to the other variant (control: the retargeted arm is added
+/// in front of the arm instead of replacing it).
+fn verdict_retarget(p: &mut Program, word: u64, control: bool, tags: &mut Vec<String>) {
+    let mut m = Mix(word);
+    let scalars = [Ty::Int(IntTy::I32), Ty::Int(IntTy::U8), Ty::Bool, Ty::Str, Ty::Int(IntTy::I64), Ty::Int(IntTy::U32)];
+    let a_ty = scalars[m.below(scalars.len())].clone();
+    let r_ty = if m.below(2) == 0 { a_ty.clone() } else { scalars[m.below(scalars.len())].clone() };
+    let same = a_ty == r_ty;
+    let vty = Ty::Verdict(Box::new(a_ty.clone()), Box::new(r_ty.clone()));
+    let d = || Expr::var("zz_d", a_ty.clone());
+    let tail = |e: Expr| Block { stmts: vec![], tail: Some(Box::new(e)) };
+    let acc = Arm { variant: Some(0), variant_name: "Accept".into(), binds: vec!["zz_a".into()], guard: None, body: tail(Expr::var("zz_a", a_ty.clone())) };
+    let rej = Arm {
+        variant: Some(1),
+        variant_name: "Reject".into(),
+        binds: vec!["zz_r".into()],
+        guard: None,
+        body: tail(if same && m.below(2) == 0 { Expr::var("zz_r", a_ty.clone()) } else { d() }),
+    };
+    let mut arms = if m.below(2) == 0 { vec![acc, rej] } else { vec![rej, acc] };
+    let lose = m.below(2); // position of the arm that is retargeted
+    let keep = 1 - lose;
+    let copy = !same || m.below(2) == 0;
+    let mut extra = if copy {
+        let mut a = arms[keep].clone();
+        if m.below(2) == 0 {
+            let from = a.binds[0].clone();
+            rename_block(&mut a.body, &from, "zz_n");
+            a.binds[0] = "zz_n".into();
+            tags.push("retarget:mode:copy-renamed-binders".into());
+        } else {
+            tags.push("retarget:mode:copy".into());
+        }
+        a
+    } else {
+        let mut a = arms[lose].clone();
+        a.variant = arms[keep].variant;
+        a.variant_name = arms[keep].variant_name.clone();
+        tags.push("retarget:mode:same-payload".into());
+        a
+    };
+    extra.guard = None;
+    let lost_name = arms[lose].variant_name.clone();
+    if control {
+        arms.insert(lose, extra);
+    } else {
+        arms[lose] = extra;
+    }
+    // optionally guarded arms (they never count towards exhaustiveness)
+    let guard = || Expr::new(Ty::Bool, EK::Bin(BinOp::Eq, Box::new(d()), Box::new(d())));
+    let guarded = m.below(3);
+    if guarded >= 1 {
+        let (vi, vn) = if lost_name == "Accept" { (0, "Accept") } else { (1, "Reject") };
+        let at = m.below(arms.len() + 1);
+        arms.insert(at, Arm { variant: Some(vi), variant_name: vn.into(), binds: vec!["zz_g".into()], guard: Some(guard()), body: tail(d()) });
+        tags.push("retarget:guarded-variant-arms:present".into());
+    } else {
+        tags.push("retarget:guarded-variant-arms:absent".into());
+    }
+    if guarded == 2 {
+        let at = m.below(arms.len() + 1);
+        arms.insert(at, Arm { variant: None, variant_name: "_".into(), binds: vec![], guard: Some(guard()), body: tail(d()) });
+        tags.push("retarget:guarded-default-arms:present".into());
+    } else {
+        tags.push("retarget:guarded-default-arms:absent".into());
+    }
+    tags.push("retarget:on:verdict".into());
+    tags.push(format!("retarget:verdict:lost:{lost_name}"));
+    tags.push("retarget:arms:1".into());
+    let body = tail(Expr::new(a_ty.clone(), EK::Match(Box::new(Expr::var("zz_v", vty.clone())), arms)));
+    p.fns.push(FnDecl { name: "zz_verdict".into(), kind: FnKind::Fn, params: vec![("zz_v".into(), vty), ("zz_d".into(), a_ty.clone())], ret: a_ty, body });
+}
+
+fn item_edit_full(prog: &Program, kind: &str, word: u64, control: bool, tags: &mut Vec<String>) -> Option<Program> {
     let mut p = prog.clone();
     let plain_fns: Vec<usize> = (0..p.fns.len()).filter(|&i| p.fns[i].kind == FnKind::Fn).collect();
     match kind {
@@ -414,6 +1317,7 @@ fn item_edit(prog: &Program, kind: &str, word: u64) -> Option<Program> {
             let a = Expr::new(Ty::Unit, EK::Assign(Place { root: name, fields: vec![] }, Box::new(int_lit())));
             p.fns[i].body.stmts.insert(0, Stmt::Expr(a));
         }
+        "match-retarget-verdict" => verdict_retarget(&mut p, word, control, tags),
         "recursive-record-direct" => {
             let d = p.types.len();
             p.types.push(TypeDecl::Record { name: "ZzRec".into(), params: vec![], fields: vec![("x".into(), Ty::Named(d, vec![]))] });
